@@ -20,7 +20,8 @@ CLAIMED = {
  'C17': dict(
    text='Theorem create_one_statement by structural induction over the block grammar (nested BEGIN/END, IF/FOR/WHILE … END IF/END FOR/END WHILE, nested CASE expressions, LOOP … END LOOP, inner DECLARE, '
         'arbitrary leaves incl. semicolons, any spelling/whitespace/comments): the CREATE unit is one statement, neighbours unchanged; block_level gives the level invariant. '
-        'Counterexample theorems (decide) for FOR/WHILE…LOOP and END CASE document the three open known findings. Model tied by S-SPLIT + exhaustive S-CSL; domain check through the driver; oracle on real code.',
+        'create_one_statement_syntactic_header: the header hypotheses are discharged from a decidable token-list predicate hdrOK (a create token, then balanced parentheses and effect-free tokens, no semicolon at level 0). '
+        'Counterexample theorems (decide) for FOR/WHILE…LOOP and END CASE document the three open known findings. Model tied by S-SPLIT + exhaustive S-CSL; domain checks through the driver (DOMAIN(quiet), DOMAIN(hdrok) against the real _change_splitlevel); oracle on real code.',
    note='Trusted: as C05. Two genuine defects found by this check were repaired in /repo (fix: commits cb5557c, cd37750); three constructs remain known findings (KF-C17-1..3).',
    technique='Lean 4 theorem by mutual structural induction over a block grammar + exhaustive table diff + differential correspondence',
    design='§7 C17'),
